@@ -75,7 +75,29 @@ FAM = {
     'else-if': lambda n: "if (a) {} " + "else if (a) {} " * n,
     'switch-cases': lambda n: "switch (a) { " + "case 1: " * n + "}",
     'try-nest': lambda n: "try { " * n + "} finally {} " * n,
+    # chains a loop of the parser builds: flat for the parser, one tree level per link for everyone after it
+    'nonnull-chain': lambda n: "a" + "!" * n,
+    'index-chain': lambda n: "a" + "[0]" * n,
+    'call-chain': lambda n: "f" + "()" * n,
+    'tagged-chain': lambda n: "f" + "``" * n,
+    'array-type': lambda n: "let x: number" + "[]" * n + ";",
+    'indexed-type': lambda n: "let x: T" + "['k']" * n + ";",
+    'satisfies-chain': lambda n: "1" + " satisfies any" * n,
+    'logical-chain': lambda n: "a" + "&&a||a" * n,
+    'paren-member-chains': lambda n: "(" * (n // 64 + 1) + "a" + (".b" * 64 + ")") * (n // 64 + 1),
+    'bracket-nonnull-chains': lambda n: "[" * (n // 64 + 1) + "a" + ("!" * 64 + ",1][0]") * (n // 64 + 1),
+    'statements': lambda n: "a++;" * n,
+    # speculation on parentheses that may start an arrow function
+    'ternary-paren-assign': lambda n: "x ? (a = " * n + "1" + ") : 0" * n,
+    'ternary-arrow-default': lambda n: "x ? (a = (b = " * n + "1" + ") => 1) : 0" * n,
+    'paren-colon': lambda n: "x ? (" * n + "1" + ") : 0" * n,
+    'paren-comma-assign': lambda n: "(a = 1, b = " * n + "1" + ")" * n,
+    'call-arg-paren-assign': lambda n: "f((a = " * n + "1" + "))" * n,
 }
+LONG = ('binary-chain', 'member', 'as-chain', 'optional-chain', 'string-concat', 'lt-chain', 'nullish', 'exponent', 'comma', 'type-union',
+        'array-holes', 'tpl-string', 'spread-args', 'switch-cases', 'else-if', 'nonnull-chain', 'index-chain', 'call-chain', 'tagged-chain',
+        'array-type', 'indexed-type', 'satisfies-chain', 'logical-chain', 'paren-member-chains', 'bracket-nonnull-chains', 'statements',
+        'unary-not', 'typeof', 'paren', 'brace-block')
 
 VOCAB = ["let", "const", "var", "function", "class", "extends", "return", "if", "else", "for", "while", "do", "switch", "case", "default", "break",
          "continue", "try", "catch", "finally", "throw", "new", "delete", "typeof", "instanceof", "in", "of", "void", "yield", "await", "async",
@@ -178,7 +200,7 @@ def run(chk):
         if chk.tier != "quick":
             sizes += [100000]
         for fam, gen in FAM.items():
-            for n in sizes:
+            for n in sizes + ([65536, 300000] if fam in LONG else []):
                 cases.append(("family:%s:%d" % (fam, n), gen(n)))
         # every family cut short at every position (size 8) and in the middle (larger sizes): unclosed constructs
         for fam, gen in FAM.items():
